@@ -40,32 +40,32 @@ fn cases(run: &Run) -> Vec<Case> {
     // one-draw inverse-CDF samplers
     for &(a, b) in &[(-2.0, 6.0), (0.0, 1.0), (1e3, 1e3 + 0.5)] {
         let d = Uniform::new(a, b);
-        v.push(Case { law: "Uniform", params: format!("({}, {})", a, b), regime: "inverse-cdf", sample: Box::new(move || d.sample()), decl: decl(run, 0, 1, false), cdf: Box::new(move |x| ((x - a) / (b - a)).clamp(0.0, 1.0)), support: (a, b), degenerate: None });
+        v.push(Case { law: "Uniform", params: format!("({}, {})", a, b), regime: "inverse-cdf", sample: Box::new(move || d.sample()), decl: decl(run, 1, 2, false), cdf: Box::new(move |x| ((x - a) / (b - a)).clamp(0.0, 1.0)), support: (a, b), degenerate: None });
     }
     {
         let d = Uniform::new(3.0, 3.0);
-        v.push(Case { law: "Uniform", params: "(3, 3)".into(), regime: "degenerate-equal-bounds", sample: Box::new(move || d.sample()), decl: decl(run, 0, 1, false), cdf: Box::new(|x| if x >= 3.0 { 1.0 } else { 0.0 }), support: (3.0, 3.0), degenerate: Some(3.0) });
+        v.push(Case { law: "Uniform", params: "(3, 3)".into(), regime: "degenerate-equal-bounds", sample: Box::new(move || d.sample()), decl: decl(run, 1, 2, false), cdf: Box::new(|x| if x >= 3.0 { 1.0 } else { 0.0 }), support: (3.0, 3.0), degenerate: Some(3.0) });
     }
     for &l in &[1e-3, 1.0, 5.0, 1e3] {
         let d = Exponential::new(l);
-        v.push(Case { law: "Exponential", params: format!("({})", l), regime: "inverse-cdf", sample: Box::new(move || d.sample()), decl: decl(run, 0, 1, false), cdf: Box::new(move |x| if x <= 0.0 { 0.0 } else { -c_expm1(-l * x) }), support: (0.0, inf), degenerate: None });
+        v.push(Case { law: "Exponential", params: format!("({})", l), regime: "inverse-cdf", sample: Box::new(move || d.sample()), decl: decl(run, 1, 2, false), cdf: Box::new(move |x| if x <= 0.0 { 0.0 } else { -c_expm1(-l * x) }), support: (0.0, inf), degenerate: None });
     }
     for &(m, b) in &[(0.0, 1.0), (-1e3, 10.0), (2.0, 0.5)] {
         let d = Gumbel::new(m, b);
-        v.push(Case { law: "Gumbel", params: format!("({}, {})", m, b), regime: "inverse-cdf", sample: Box::new(move || d.sample()), decl: decl(run, 0, 1, false), cdf: Box::new(move |x| (-(-(x - m) / b).exp()).exp()), support: (-inf, inf), degenerate: None });
+        v.push(Case { law: "Gumbel", params: format!("({}, {})", m, b), regime: "inverse-cdf", sample: Box::new(move || d.sample()), decl: decl(run, 1, 2, false), cdf: Box::new(move |x| (-(-(x - m) / b).exp()).exp()), support: (-inf, inf), degenerate: None });
     }
     for &(a, xm) in &[(1.0, 1.0), (4.0, 4.0), (0.5, 2.0), (20.0, 1e-3)] {
         let d = Pareto::new(a, xm);
-        v.push(Case { law: "Pareto", params: format!("({}, {})", a, xm), regime: "inverse-cdf", sample: Box::new(move || d.sample()), decl: decl(run, 0, 1, false), cdf: Box::new(move |x| if x < xm { 0.0 } else { 1.0 - (xm / x).powf(a) }), support: (xm, inf), degenerate: None });
+        v.push(Case { law: "Pareto", params: format!("({}, {})", a, xm), regime: "inverse-cdf", sample: Box::new(move || d.sample()), decl: decl(run, 1, 2, false), cdf: Box::new(move |x| if x < xm { 0.0 } else { 1.0 - (xm / x).powf(a) }), support: (xm, inf), degenerate: None });
     }
     for &p in &[0.0, 0.25, 0.75, 1.0] {
         let d = Bernoulli::new(p);
-        v.push(Case { law: "Bernoulli", params: format!("({})", p), regime: if p == 0.0 || p == 1.0 { "p-in-{0,1}" } else { "inverse-cdf" }, sample: Box::new(move || d.sample()), decl: decl(run, 0, 1, true), cdf: Box::new(move |x| if x < 0.0 { 0.0 } else if x < 1.0 { 1.0 - p } else { 1.0 }), support: (0.0, 1.0), degenerate: if p == 0.0 { Some(0.0) } else if p == 1.0 { Some(1.0) } else { None } });
+        v.push(Case { law: "Bernoulli", params: format!("({})", p), regime: if p == 0.0 || p == 1.0 { "p-in-{0,1}" } else { "inverse-cdf" }, sample: Box::new(move || d.sample()), decl: decl(run, 1, 2, true), cdf: Box::new(move |x| if x < 0.0 { 0.0 } else if x < 1.0 { 1.0 - p } else { 1.0 }), support: (0.0, 1.0), degenerate: if p == 0.0 { Some(0.0) } else if p == 1.0 { Some(1.0) } else { None } });
     }
     for &(a, b) in &[(-2i64, 6i64), (0, 1), (3, 3), (-5, -5), (0, 40)] {
         let d = DiscreteUniform::new(a, b);
         let n = (b - a + 1) as f64;
-        v.push(Case { law: "DiscreteUniform", params: format!("({}, {})", a, b), regime: if a == b { "degenerate-equal-bounds" } else { "bounded-integer" }, sample: Box::new(move || d.sample()), decl: decl(run, 0, 0, true), cdf: Box::new(move |x| (((x.floor() - a as f64 + 1.0) / n).clamp(0.0, 1.0))), support: (a as f64, b as f64), degenerate: if a == b { Some(a as f64) } else { None } });
+        v.push(Case { law: "DiscreteUniform", params: format!("({}, {})", a, b), regime: if a == b { "degenerate-equal-bounds" } else { "bounded-integer" }, sample: Box::new(move || d.sample()), decl: decl(run, 1, 2, true), cdf: Box::new(move |x| (((x.floor() - a as f64 + 1.0) / n).clamp(0.0, 1.0))), support: (a as f64, b as f64), degenerate: if a == b { Some(a as f64) } else { None } });
     }
     // Normal (ziggurat)
     for &(m, s) in &[(0.0, 1.0), (10.0, 20.0), (-1e3, 1e-3)] {
@@ -506,7 +506,7 @@ pub fn run(run: &Run) {
         Err(e) => run.machinery_error(e),
     }
     let eps = band(run);
-    run.rule("every sampler × a parameter lattice hitting each algorithm branch; the RNG answers are enumerated: all 128 ziggurat layers × 2 signs × a refined partition of the 24-bit field, unit floats partitioned by continuation signature (gates located by bisection, value-producing draws subdivided 2^13 (2^16) fold, integer outputs split at every jump), bounded integers exhaustively; rejection bound 0 (a request beyond one loop iteration is a memoryless restart, its mass reported); the normalised leaf measure is compared with the reference CDF within the DKW band; two-stage samplers (Beta, T) through Q×Q quantile-reduced stage scripts run on the real composite sampler; multiplication-method Poisson path-wise against the product-of-uniforms model on all scripts of depth 6 (7) over 8 letters; MVN draws must be mean + L·z exactly; non-trivial = leaf reached through more than one draw");
+    run.rule("every sampler × a parameter lattice hitting each algorithm branch; the RNG answers are enumerated: all 128 ziggurat layers × 2 signs × a refined partition of the 24-bit field, unit floats partitioned by continuation signature (gates located by bisection, value-producing draws subdivided 2^13 (2^16) fold, integer outputs split at every jump), bounded integers exhaustively; rejection bound 0 (a request beyond one loop iteration is a memoryless restart, its mass reported; loop-free samplers are declared generously (1 word, 2 units) so that a rewritten draw structure is still explored); the normalised leaf measure is compared with the reference CDF within the DKW band; two-stage samplers (Beta, T) through Q×Q quantile-reduced stage scripts run on the real composite sampler; multiplication-method Poisson path-wise against the product-of-uniforms model on all scripts of depth 6 (7) over 8 letters; MVN draws must be mean + L·z exactly; non-trivial = leaf reached through more than one draw");
     run.bound("DKW band", format!("{:.5}", eps));
     let cs = cases(run);
     cs.par_iter().for_each(|c| {
